@@ -313,6 +313,40 @@ fn case(g: &mut Gen, ctx: &mut Ctx) -> CaseResult {
                 _ => Item::Text(g.text()),
             };
             let vv = crate::conv::item_to_value(&v).ok_or("value")?;
+            // several different text labels in one map (related ones over-represented) are all kept, in order
+            if g.ratio(1, 3) {
+                let mut ts = vec![t.clone()];
+                for _ in 0..(1 + g.below(3)) {
+                    let src = ts[g.below(ts.len())].clone();
+                    let u = if g.ratio(2, 3) { g.text_related(&src) } else { g.text() };
+                    if !ts.contains(&u) {
+                        ts.push(u);
+                    }
+                    if let Some(p) = g.take_pending() {
+                        if !ts.contains(&p) {
+                            ts.push(p);
+                        }
+                    }
+                }
+                if g.bool() {
+                    ts.reverse();
+                }
+                ctx.class("gen:several-text-labels");
+                let entries: Vec<(Item, Item)> = ts.iter().map(|t| (Item::Text(t.clone()), v.clone())).collect();
+                let m = encode(&Item::Map(entries.clone()));
+                let c = ClaimsSet::from_slice(&m).map_err(|e| format!("claims set with the distinct text claim names {:?} rejected: {:?}", ts, e))?;
+                ensure!(c.rest.len() == ts.len() && c.rest.iter().zip(&ts).all(|((k, x), t)| *k == coset::cwt::ClaimName::Text(t.clone()) && crate::props::common::same(x, &vv)), "claims set with text claim names {:?}: not all kept in order: {:?}", ts, c.rest);
+                let h = Header::from_slice(&m).map_err(|e| format!("header with the distinct text labels {:?} rejected: {:?}", ts, e))?;
+                ensure!(h.rest.len() == ts.len() && h.rest.iter().zip(&ts).all(|((k, x), t)| *k == coset::Label::Text(t.clone()) && crate::props::common::same(x, &vv)), "header with text labels {:?}: not all kept in order: {:?}", ts, h.rest);
+                let mut ke = vec![(Item::Int(1), Item::Int(1))];
+                ke.extend(entries);
+                let k = CoseKey::from_slice(&encode(&Item::Map(ke))).map_err(|e| format!("key with the distinct text labels {:?} rejected: {:?}", ts, e))?;
+                ensure!(k.params.len() == ts.len() && k.params.iter().zip(&ts).all(|((k, x), t)| *k == coset::Label::Text(t.clone()) && crate::props::common::same(x, &vv)), "key with text labels {:?}: not all kept in order: {:?}", ts, k.params);
+                // and the values so decoded encode again (the encoders check labels for duplicates too)
+                h.to_vec().map_err(|e| format!("header with the distinct text labels {:?} fails to encode: {:?}", ts, e))?;
+                k.to_vec().map_err(|e| format!("key with the distinct text labels {:?} fails to encode: {:?}", ts, e))?;
+                return Ok(());
+            }
             let m = encode(&Item::Map(vec![(Item::Text(t.clone()), v.clone())]));
             match ClaimsSet::from_slice(&m) {
                 Ok(c) => ensure!(c.rest.len() == 1 && c.rest[0].0 == coset::cwt::ClaimName::Text(t.clone()) && crate::props::common::same(&c.rest[0].1, &vv) && c.issuer.is_none() && c.subject.is_none() && c.audience.is_none(),
@@ -369,6 +403,6 @@ pub fn property() -> Property {
         bytes_case: None,
         quick_cases: 200_000,
         thorough_cases: 2_000_000,
-        max_tape: 128,
+        max_tape: 256,
     }
 }
